@@ -34,7 +34,14 @@ MAX_E_ERR = 1.0e-8
 # configurations
 
 
-def te_params(rng, engine, fmt):
+START_TIMES = [0.0, 1.0, -0.5, 2.75, -1.0, 0.375, -0.1875]   # dyadic: start_time + k*dt*N_steps is exact
+
+
+def te_params(rng, engine, fmt, start_time=None):
+    """`start_time` (option of TimeEvolutionAlgorithm): None = drawn from START_TIMES (non-zero 6 times of 7, also
+    negative, also crossing zero during the run) - `evolved_time` of a resumed run must continue from the checkpoint,
+    not from `start_time`; `final_time` is absolute."""
+    t0 = rng.choice(START_TIMES) if start_time is None else start_time
     L = rng.choice([4, 5, 6])
     n = rng.choice([2, 3, 3, 4])
     N_steps = rng.choice([1, 2])
@@ -49,6 +56,8 @@ def te_params(rng, engine, fmt):
         alg['order'] = rng.choice([1, 2])
         alg['approximation'] = rng.choice(['I', 'II'])
         alg['compression_method'] = 'SVD'
+    if t0 != 0.0:
+        alg['start_time'] = t0
     p = dict(
         simulation_class='RealTimeEvolution',
         model_class='XXZChain',
@@ -57,9 +66,9 @@ def te_params(rng, engine, fmt):
                                   allow_incommensurate=True),
         algorithm_class=engine,
         algorithm_params=alg,
-        final_time=dt * N_steps * n,
+        final_time=t0 + dt * N_steps * n,
         save_every_x_seconds=0.0,
-        connect_measurements=[['harness.c18_meas', 'm_steps'],
+        connect_measurements=[['harness.c18_meas', 'm_steps', {'offset': t0}],
                               ['tenpy.simulations.measurement', 'm_onsite_expectation_value', {'opname': 'Sz'}]],
         log_params=dict(to_stdout=None, to_file=None),
     )
@@ -263,7 +272,8 @@ def run_job(job):
             params = fix_int_keys(copy.deepcopy(job['params']))
             params['output_filename'] = 'sig' + ext
             params['save_every_x_seconds'] = None
-            params['connect_algorithm_checkpoint'] = [['harness.c18_meas', 'sigint_at', {'at': at}, 50]]
+            t0 = float(params.get('algorithm_params', {}).get('start_time', 0.0)) if job['kind'] == 'te' else 0.0
+            params['connect_algorithm_checkpoint'] = [['harness.c18_meas', 'sigint_at', {'at': at, 'offset': t0}, 50]]
             old = signal.getsignal(signal.SIGINT)
             import contextlib
             devnull = open(os.devnull, 'w')
@@ -553,12 +563,17 @@ def extra_jobs(ctx, rng):
     from every checkpoint and diffed against the plain run and the loop machine."""
     jobs = []
 
-    def te(engine='TEBDEngine', fmt='pkl', variant=None):
-        j = te_params(rng, engine, fmt)
+    def te(engine='TEBDEngine', fmt='pkl', variant=None, start_time=0.0):
+        j = te_params(rng, engine, fmt, start_time=start_time)
         j['sigint'] = None
         j['schedule'] = variant
         return j
 
+    # non-zero start_time with every engine family (the clock of a resumed run continues from the checkpoint)
+    for eng in ('TEBDEngine', rng.choice(['TwoSiteTDVPEngine', 'SingleSiteTDVPEngine']), 'ExpMPOEvolution'):
+        j = te(engine=eng, fmt=rng.choice(['pkl', 'h5']), variant='te:start_time',
+               start_time=rng.choice([t for t in START_TIMES if t != 0.0]))
+        jobs.append(j)
     # measure_initial = False
     j = te(variant='te:measure_initial=False')
     j['params']['measure_initial'] = False
